@@ -1213,10 +1213,10 @@ class Process(StateMachine, persistence.Savable, metaclass=ProcessStateMachineMe
         """
         if not self.paused:
             if self._pausing is not None:
-                # Not going to pause after all
+                # Not going to pause after all.  The cancelled action is left in place: if its interruption was already
+                # delivered to the state, ``step`` recognises it as void and does not pause
                 self._pausing.cancel()
                 self._pausing = None
-                self._set_interrupt_action(None)
             return True
 
         call_with_super_check(self.on_playing)
@@ -1370,15 +1370,16 @@ class Process(StateMachine, persistence.Savable, metaclass=ProcessStateMachineMe
                 self.kill('Killed by future being cancelled')
 
             action = self._interrupt_action
-            if action:
+            if action and not action.cancelled():
                 action.run(next_state)
             else:
                 # Everything nominal so transition to the next state
                 self.transition_to(next_state)
 
-            if self._interrupt_action is not action and self._interrupt_action and not self.has_terminated():
+            newer = self._interrupt_action
+            if newer is not action and newer and not newer.cancelled() and not self.has_terminated():
                 # A pause or kill was requested during the transition (e.g. by a listener): carry it out now
-                self._interrupt_action.run(None)
+                newer.run(None)
 
         finally:
             self._stepping = False
